@@ -32,8 +32,9 @@ def make_file(d, cr=False):
 
 
 class Cfg:
-    def __init__(self, name, variant, pre, reads, grandchild=None, cr=False):
+    def __init__(self, name, variant, pre, reads, grandchild=None, cr=False, given_index=False):
         self.cr = cr                    # the file contains carriage returns
+        self.given_index = given_index  # the line index is supplied by the caller (all lines, in order)
         self.name = name
         self.variant = variant          # text | mmap | map
         self.pre = list(pre)            # reads of the root before the fork (unscheduled)
@@ -45,7 +46,8 @@ class Cfg:
 
     def describe(self):
         return {"name": self.name, "variant": self.variant, "pre": self.pre,
-                "reads": {str(k): v for k, v in self.reads.items()}, "grandchild": self.grandchild, "cr": self.cr}
+                "reads": {str(k): v for k, v in self.reads.items()}, "grandchild": self.grandchild, "cr": self.cr,
+                "given_index": self.given_index}
 
 
 def make_scenario(cfg, path, offs):
@@ -53,9 +55,9 @@ def make_scenario(cfg, path, offs):
         import windpyutils.files as F
         xproc.install_shadows(F)
         if cfg.variant == "text":
-            f = F.RandomLineAccessFile(path)
+            f = F.RandomLineAccessFile(path, list(offs)) if cfg.given_index else F.RandomLineAccessFile(path)
         elif cfg.variant == "mmap":
-            f = F.MemoryMappedRandomLineAccessFile(path)
+            f = F.MemoryMappedRandomLineAccessFile(path, list(offs)) if cfg.given_index else F.MemoryMappedRandomLineAccessFile(path)
         else:
             f = F.MapAccessFile(path, {"k%d" % i: o for i, o in enumerate(offs)})
 
@@ -193,6 +195,9 @@ def plan_for(tier):
             # an iteration started before the fork is continued in the parent and in the child
             plan.append((Cfg("%s/2p-iteration-resumed" % variant, variant, ["iter2"], {0: ["next", 4], 1: ["next", "next"]}),
                          None if not q else 3))
+            # the same over a caller-supplied index (iteration then goes through the indexed reads)
+            plan.append((Cfg("%s/2p-iteration-given-index" % variant, variant, ["iter2"], {0: ["next", 4], 1: ["next", "next"]},
+                             given_index=True), None if not q else 3))
         # the child's first read is the line right behind the one the parent read before the fork
         plan.append((Cfg("%s/2p-next-line" % variant, variant, [1], {0: [3, 0], 1: [2, 4]}), None if not q else 3))
         # a child that never touches the file forks a grandchild that does (parent reads concurrently)
@@ -281,7 +286,7 @@ def replay(rec):
     rp = rec["replay"]
     c = rp["config"]
     cfg = Cfg(c["name"], c["variant"], c["pre"], c["reads"], tuple(c["grandchild"]) if c["grandchild"] else None,
-              cr=c.get("cr", False))
+              cr=c.get("cr", False), given_index=c.get("given_index", False))
     d = "/dev/shm/verif-c18-%d" % os.getpid()
     os.makedirs(d, exist_ok=True)
     try:
